@@ -1,5 +1,6 @@
 # -*- coding: utf-8 -*-
 
+import copy
 from typing import Any, Dict, Mapping, Optional, Union
 
 from ..exc import InvalidValue, UnknownVariable
@@ -103,7 +104,7 @@ def _extract_input_object(
         target_name = field.python_name
         if name not in node_fields:
             if field.has_default_value:
-                coerced[target_name] = field.default_value
+                coerced[target_name] = copy.deepcopy(field.default_value)
             elif isinstance(field.type, NonNullType):
                 raise InvalidValue("Missing field %s" % name, [node])
         else:
